@@ -228,6 +228,7 @@ qb_log_blackbox_print_from_file(const char *bb_filename)
 	int saved_errno;
 	struct _blackbox_file_header header;
 	int have_timespecs = 0;
+	size_t ts_size = sizeof(time_t);
 	char time_buf[64];
 
 	fd = open(bb_filename, 0);
@@ -252,6 +253,7 @@ qb_log_blackbox_print_from_file(const char *bb_filename)
 	    header.version == QB_BLACKBOX_HEADER_VERSION &&
 	    header.hash == QB_BLACKBOX_HEADER_HASH) {
 		have_timespecs = 1;
+		ts_size = sizeof(struct timespec);
 	} else {
 		(void)lseek(fd, 0, SEEK_SET);
 	}
@@ -328,6 +330,15 @@ qb_log_blackbox_print_from_file(const char *bb_filename)
 		function = ptr;
 		ptr += fn_size;
 
+		/* the name must be terminated and the timestamp, the message
+		 * length and a message must follow within what was read */
+		if (function[fn_size - 1] != '\0' ||
+		    (ptr - chunk) + ts_size + sizeof(uint32_t) + 1 > bytes_read) {
+			printf("ERROR Corrupt file: function name overruns the entry\n");
+			err = -EIO;
+			goto cleanup;
+		}
+
 		/* timestamp size & content */
 		if (have_timespecs) {
 			memcpy(&timestamp, ptr, sizeof(struct timespec));
@@ -351,7 +362,9 @@ qb_log_blackbox_print_from_file(const char *bb_filename)
 		}
 		/* message length */
 		memcpy(&msg_len, ptr, sizeof(uint32_t));
-		if (msg_len > QB_LOG_MAX_LEN || msg_len <= 0) {
+		if (msg_len > QB_LOG_MAX_LEN || msg_len <= 0 ||
+		    msg_len > (chunk + bytes_read) - (ptr + sizeof(uint32_t)) ||
+		    memchr(ptr + sizeof(uint32_t), '\0', msg_len) == NULL) {
 #ifndef S_SPLINT_S
 			printf("ERROR Corrupt file: msg_len out of bounds %" PRIu32 "\n", msg_len);
 			err = -EIO;
@@ -364,7 +377,6 @@ qb_log_blackbox_print_from_file(const char *bb_filename)
 		/* message content */
 		len = qb_vsnprintf_deserialize(message, QB_LOG_MAX_LEN, ptr);
 		assert(len > 0);
-		message[len] = '\0';
 		len--;
 		while (len > 0 && (message[len] == '\n' || message[len] == '\0')) {
 			message[len] = '\0';
